@@ -486,3 +486,30 @@ def reentrant_acquisitions(prog, func, mutex_field, extra_targets=None, max_dept
                     if h.id not in seen:
                         work.append((h, chain + ["%s calls %s at %s" % (g.name, h.name, c.loc)]))
     return out
+
+
+# ---------- drain loops ----------
+
+def drain_loop_check(func, pop_ev):
+    """popSafe() result bound to a local; the call sits in a loop; every non-throwing exit of the function after the call goes through
+    the `!var` (null result) edge.  Returns (ok, detail)."""
+    decl = [d for d in func.events("decl") if d.block == pop_ev.block and d.idx > pop_ev.idx and strip_tmpl(d.get("icall") or "").endswith("::popSafe")]
+    if strip_tmpl(pop_ev.get("callee") or "") != "Pistache::Queue::popSafe" or not decl:
+        return False, "consumer does not bind the popSafe result to a local"
+    var = decl[0]["var"]
+    in_loop = any(x is pop_ev for x in cfg.events_after(func, pop_ev))
+    null_edges = set()
+    for b in func.blocks.values():
+        t = b.term
+        if t and t.get("k") == "if" and (t.get("core") or {}).get("root") == var and not t.get("cmp"):
+            null_edges.add((b.id, 0 if t.get("neg") else 1))
+
+    def edge2(st, blk, k, succ):
+        if (blk.id, k) in null_edges:
+            return "null"
+        return st
+    exits, _ = cfg.run_automaton(func, "live", lambda s_, ev: s_, edge=edge2, start=pop_ev.block, start_idx=pop_ev.idx + 1)
+    bad = [x for x in exits if x.kind != "throw" and x.state != "null"]
+    if in_loop and null_edges and not bad:
+        return True, "popSafe in a loop; every normal exit goes through the `!%s` arm" % var
+    return False, "consumer can stop draining with items left: exit at block %s without the null test" % (bad[0].block if bad else "-")
